@@ -92,7 +92,7 @@ class ReduceBase(PropertyCheck):
             k = (tuple(ops), ctx)
             if k in seen:
                 return
-            if ctx == 'T' and any(isinstance(env[n], inv_cls) for n in ops):
+            if ctx == 'T' and any(contains_cls(env[n], inv_cls) for n in ops):
                 return  # the library does not support transposing the iterative-solver inverse
             seen.add(k)
             c = {'kind': kind, 'ops': list(ops), 'ctx': ctx}
@@ -101,12 +101,15 @@ class ReduceBase(PropertyCheck):
             out.append(c)
 
         t = G.typed()
+        self.stats['unbuildable_operands'] = {n: o.error for n, o in env.items() if isinstance(o, A.Unbuildable)}
         by_out, by_in = {}, {}
-        for n in CONTEXT_OPS:
+        for n in [n for n in CONTEXT_OPS if n in t]:
             by_out.setdefault(t[n][1], []).append(n)
             by_in.setdefault(t[n][0], []).append(n)
         # 1. every documented pattern alone, in every construction context
-        for pname, pat in G.PATTERNS.items():
+        patterns = {k: v for k, v in G.PATTERNS.items() if all(n in t for n in v)}
+        self.stats['patterns_unbuildable'] = sorted(set(G.PATTERNS) - set(patterns))
+        for pname, pat in patterns.items():
             for ctx in ('comp', 'matmul', 'rmatmul', 'sum', 'blockdiag', 'blockrow-dict', 'T', 'sum1'):
                 if len(pat) >= 2 or ctx == 'comp':
                     add(pat, ctx, 'pattern', pname)
@@ -114,7 +117,7 @@ class ReduceBase(PropertyCheck):
                 add(pat, 'nested', 'pattern', pname)
         # 2. every pattern embedded at every position of contexts of length <= 2 (quick) / 3 (thorough)
         maxctx = 2 if quick else 3
-        for pname, pat in G.PATTERNS.items():
+        for pname, pat in patterns.items():
             pin, pout = t[pat[-1]][0], t[pat[0]][1]
             lefts = [[]] + [[n] for n in by_in.get(pout, [])]
             rights = [[]] + [[n] for n in by_out.get(pin, [])]
@@ -127,10 +130,10 @@ class ReduceBase(PropertyCheck):
                         continue
                     add(l + pat + r, 'comp', 'embedded', pname)
         # 3. pairs of patterns next to each other / separated by one operator
-        pn = list(G.PATTERNS)
+        pn = list(patterns)
         for a in pn:
             for b in pn:
-                pa, pb = G.PATTERNS[a], G.PATTERNS[b]
+                pa, pb = patterns[a], patterns[b]
                 if t[pa[-1]][0] == t[pb[0]][1]:
                     add(pa + pb, 'comp', 'pattern-pair', f'{a}+{b}')
                     for mid in by_out.get(t[pa[-1]][0], []):
@@ -146,6 +149,12 @@ class ReduceBase(PropertyCheck):
             add(ch, rng.choice(['matmul', 'rmatmul', 'sum', 'blockdiag', 'T']), 'chain-ctx')
         self.stats['chains_available'] = len(allchains)
         return out
+
+    def extra(self):
+        bad = self.stats.get('unbuildable_operands') or {}
+        if bad:
+            raise RuntimeError(f'operands of the alphabet cannot be constructed on this tree: {bad}')
+        return {}
 
     def distribution(self, cases):
         d = {}
@@ -203,6 +212,23 @@ class ReduceBase(PropertyCheck):
 
     def decode(self, case, v):
         return A.decode_observation(v)
+
+
+def contains_cls(op, cls) -> bool:
+    """Does the expression contain an operator of the given class anywhere?"""
+    j = A.J()
+    core, blocks = j['core'], j['blocks']
+    if isinstance(op, cls):
+        return True
+    if isinstance(op, core.CompositionOperator):
+        return any(contains_cls(o, cls) for o in op.operands)
+    if isinstance(op, core.AdditionOperator):
+        return any(contains_cls(o, cls) for o in op.operand_leaves)
+    if isinstance(op, blocks.AbstractBlockOperator):
+        return any(contains_cls(o, cls) for o in op.block_leaves)
+    if hasattr(op, 'operator') and isinstance(getattr(op, 'operator'), core.AbstractLinearOperator):
+        return contains_cls(op.operator, cls)
+    return False
 
 
 def normal_form_report(red):
